@@ -428,7 +428,50 @@ Section Num.
                 | None => XErr EValue
                 | Some n => expand r expected (acc ++ repeat None (Z.to_nat n)) (Datatypes.S consumed)
                 end
-              else if Ascii.eqb c "i" || Ascii.eqb c "m" || Ascii.eqb c "g" then XErr EUnmodelled
+              else if Ascii.eqb c "i" || Ascii.eqb c "m" || Ascii.eqb c "g" then
+                (* nI, xM on a card read as floats (IMP cards: no expected=);
+                   with dtype='int' (FILL arrays: round()) and for LOG: outside *)
+                match expected with
+                | Some _ => XErr EUnmodelled
+                | None =>
+                    if Ascii.eqb c "m" then
+                      match but_last s with
+                      | EmptyString => XErr EValue      (* "m" needs a multiplier *)
+                      | p =>
+                          if num_lit p then
+                            match rev acc with
+                            | [] => XErr EIndex
+                            | None :: _ => XErr EType
+                            | Some (v, _) :: _ =>
+                                expand r expected (acc ++ [Some (smul S v (tval t), 0%Z)])
+                                       (Datatypes.S consumed)
+                            end
+                          else XErr EValue
+                      end
+                    else if Ascii.eqb c "i" then
+                      match rev acc, r with
+                      | [], _ => XErr EIndex
+                      | _, [] => XErr EIndex
+                      | lo :: _, up :: r' =>
+                          if num_lit (strip_ws (tsp up)) then
+                            match lo with
+                            | None => XErr EType
+                            | Some (lower, _) =>
+                                match reps s with
+                                | None => XErr EValue
+                                | Some n =>
+                                    if (n <? 0)%Z then XErr EUnmodelled else
+                                    let step := sdiv S (ssub S (tval up) lower) (sofZ S (n + 1)) in
+                                    let mids := map (fun i => Some (sadd S lower (smul S (sofZ S (Z.of_nat i)) step), 0%Z))
+                                                    (seq 1 (Z.to_nat n)) in
+                                    expand r' expected (acc ++ mids ++ [Some (tval up, 0%Z)])
+                                           (Datatypes.S (Datatypes.S consumed))
+                                end
+                            end
+                          else XErr EValue
+                      end
+                    else XErr EUnmodelled
+                end
               else if num_lit s
               then expand r expected (acc ++ [Some (tval t, tint t)]) (Datatypes.S consumed)
               else XErr EValue
